@@ -232,7 +232,23 @@ func (r *lfRig) failLines(cfg *lfCfg, fail, root string) string {
 
 // ---- observations ----
 
+// listeningInodes is the set of listening TCP sockets this process holds a
+// descriptor of. /proc/net/tcp is not read atomically (while other processes
+// open and close sockets a row can be seen twice or not at all), so rows are
+// de-duplicated and the table is read until two consecutive reads agree.
 func listeningInodes() []string {
+	prev := listeningInodesOnce()
+	for i := 0; i < 8; i++ {
+		cur := listeningInodesOnce()
+		if strings.Join(cur, ",") == strings.Join(prev, ",") {
+			return cur
+		}
+		prev = cur
+	}
+	return prev
+}
+
+func listeningInodesOnce() []string {
 	mine := map[string]bool{}
 	ents, _ := os.ReadDir("/proc/self/fd")
 	for _, e := range ents {
@@ -242,6 +258,7 @@ func listeningInodes() []string {
 		}
 	}
 	var out []string
+	seen := map[string]bool{}
 	for _, f := range []string{"/proc/self/net/tcp", "/proc/self/net/tcp6"} {
 		b, err := os.ReadFile(f)
 		if err != nil {
@@ -252,7 +269,8 @@ func listeningInodes() []string {
 			if i == 0 || len(fs) < 10 || fs[3] != "0A" {
 				continue
 			}
-			if mine[fs[9]] {
+			if mine[fs[9]] && !seen[fs[1]+"#"+fs[9]] {
+				seen[fs[1]+"#"+fs[9]] = true
 				out = append(out, fs[1]+"#"+fs[9]) // local address # inode
 			}
 		}
